@@ -64,7 +64,8 @@ double gen_theta(Chooser& ch, TanProfile tp, bool is_float) {
       int k = (int)ch.range(1, is_float ? 6 : 12);
       return cu * (1.0 + gen_sign(ch) * std::pow(10.0, -k));
     }
-    case 5: return gen_magnitude(ch, is_float ? -3 : -7, -3);
+    // 1e-3 .. 1e-1 is the band right below the theta^2 < 1e-2 switch-over of the series helpers: a stratum of its own
+    case 5: return ch.range(0, 2) == 0 ? gen_magnitude(ch, -3, -2) : gen_magnitude(ch, is_float ? -3 : -7, -3);
     case 6: {
       double hi = (tp == TP_SMALL || tp == TP_VEL) ? 0.5 : 3.0;
       return 1e-2 + (hi - 1e-2) * (double)ch.range(0, 1000000) / 1e6;
